@@ -374,3 +374,14 @@ Definition remove_sub (k : nat) (s : state) (g : group) : state :=
    steps of crun_env, so these are exactly the states after the prefixes of the schedule *)
 Definition locked_reader_state (lk : bool) (g0 : group) (s : state) (ts : list thread)
   (evs : list event) (n : nat) : state := fst (crun_env lk g0 s ts (firstn n evs)).
+
+(* ---- shutdown: groupChain.Close() takes the write lock and closes the store; it writes nothing.
+   In a schedule it is therefore a process exit at a step boundary (EExit of crun_env).
+   Two other Closes, for the record:
+   - closing WITHOUT the lock (the code before the repair): the writer's remaining store writes fail
+     (their results are ignored), so the files hold the state after the first k writes: [save_sub] /
+     [remove_sub], on which initGroupChain then runs;
+   - a Close that rewrites the tip records from the memory fields without the lock: count read before a
+     concurrent operation, written after it. ---- *)
+Definition close_writes (c : N) (lid : id) (p : store) : store :=
+  {| groups := groups p; idx := idx p; gcur := Some lid; gcnt := c; sq := sq p |}.
